@@ -7,8 +7,15 @@ extracted fact to the value it had then; the property theorems import their
 Expect module, so `lake build GV.Props.Cxx` re-checks the pins against the facts
 regenerated from /repo on every run (Tie A, DESIGN §4.1).
 """
-import re, sys, os
+import re, sys, os, subprocess
 root = os.path.dirname(os.path.dirname(os.path.abspath(__file__)))
+# always pin what the CURRENT extractor says about the CURRENT tree (a stale Facts.lean once produced pins that
+# the next run could not meet)
+_env = dict(os.environ, GOFLAGS='-mod=mod', GOPROXY='off', GOSUMDB='off', GOTOOLCHAIN='local')
+subprocess.run(['go', 'build', '-o', 'bin/extract', './cmd/extract'], cwd=os.path.join(root, 'harness'), env=_env, check=True)
+os.makedirs(os.path.join(root, '.state'), exist_ok=True)
+subprocess.run([os.path.join(root, 'harness/bin/extract'), os.environ.get('VERIF_REPO', '/repo'),
+                os.path.join(root, 'lean/GV/Generated/Facts.lean'), os.path.join(root, '.state/facts_sources.txt')], check=True)
 facts = open(os.path.join(root, 'lean/GV/Generated/Facts.lean')).read()
 defs = {}
 for m in re.finditer(r'^def (\S+) : ([^\n]*?) := (.*)$', facts, re.M):
